@@ -111,7 +111,11 @@ static void check_search(int32_t patlen, int32_t textlen) {
   __CPROVER_assume(s != STR_NULL);
   kmp_init(s, text, textlen, pat, patlen);
   int32_t from;
+#ifdef KMP_KIND
+  int resumed = KMP_KIND;             /* unit split: 0 fresh, 1 resumed */
+#else
   int resumed = nd_int();
+#endif
   if (resumed) {
     __CPROVER_assume(ref_occurs(text, textlen, pat, patlen, start));
     s->i = start + patlen;
